@@ -58,10 +58,16 @@ class InterruptableThread(threading.Thread):
         """
         Trigger a thread ending exception!
         """
-        assert self.is_alive(), "thread must be started"
+        if not self.is_alive():
+            # The thread may have finished by itself in the meantime
+            return
         for thread_id, thread in threading._active.items():
             if thread is self:
-                InterruptableThread._async_raise(thread_id, exception)
+                try:
+                    InterruptableThread._async_raise(thread_id, exception)
+                except ValueError:
+                    # The thread ended between the check above and here
+                    pass
                 return
 
     def terminate(self):
